@@ -546,39 +546,101 @@ def F4(m, R):
         okv = norm(comp.value) in ('list(%s)' % norm(g0.target.elts[2]), '%s.copy()' % norm(g0.target.elts[2]), '%s[:]' % norm(g0.target.elts[2])) if isinstance(g0.target, ast.Tuple) else False
         R.check(tt == want and okv and norm(comp.key) == ix, f, comp, 'a copy of the active list is recorded for every point in [start, end]',
                 'points recorded for regions %s (copy of the active list: %s)' % (sorted(k for k, v in tt.items() if v), okv), construct=cons)
+    from ..shapes import quantifier, local_aliases, canon
+    nested = {n.name: n for n in f.body if isinstance(n, ast.FunctionDef)}
+    searched = norm(scrub.targets[0]) if scrub is not None else None
+
+    def quant_kind(test):
+        """'all' / 'notall' of `<searched setting> in <some settings list>` over the searched settings; None if not recognised."""
+        neg = False
+        t = test
+        while isinstance(t, ast.UnaryOp) and isinstance(t.op, ast.Not):
+            neg = not neg
+            t = t.operand
+        # helper call: nested def or expression
+        if isinstance(t, ast.Call) and isinstance(t.func, ast.Name) and t.func.id in nested:
+            body = [x for x in nested[t.func.id].body if not (isinstance(x, ast.Expr) and isinstance(x.value, ast.Constant))]
+            if len(body) == 1 and isinstance(body[0], ast.Return):
+                k = quant_kind(body[0].value)
+                if k is None:
+                    return None
+                return ('notall' if k == 'all' else 'all') if neg else k
+            return None
+        q = quantifier(t)
+        if q is not None:
+            kind, it, tgt, pred = q
+            if norm(it) == searched and isinstance(pred, ast.Compare) and isinstance(pred.ops[0], ast.In) and norm(pred.left) == norm(tgt):
+                cont = norm(pred.comparators[0])
+                if cont.endswith('.' + ro.STOP) or cont.endswith('.' + ro.START):
+                    return 'marker-list:' + cont      # looks at a point's own START / STOP list, not at what is active
+                if kind == 'all':
+                    return 'notall' if neg else 'all'
+                return 'none' if neg else 'any'
+            return None
+        if isinstance(t, ast.Compare) and const_val(t.left, None) is False and isinstance(t.comparators[0], ast.ListComp):
+            comp_ = t.comparators[0]
+            g_ = comp_.generators[0]
+            if norm(g_.iter) == searched and isinstance(comp_.elt, ast.Compare) and isinstance(comp_.elt.ops[0], ast.In) and norm(comp_.elt.left) == norm(g_.target) and not g_.ifs:
+                k = 'all' if isinstance(t.ops[0], ast.NotIn) else 'notall' if isinstance(t.ops[0], ast.In) else None
+                if k is None:
+                    return None
+                return ({'all': 'notall', 'notall': 'all'}[k]) if neg else k
+        return None
+
+    def conjuncts(t):
+        return list(t.values) if isinstance(t, ast.BoolOp) and isinstance(t.op, ast.And) else [t]
     cons = 'find_settings start pre-check'
-    pre = next((n for n in f.body if isinstance(n, ast.If) and isinstance(n.test, ast.Compare) and isinstance(n.test.ops[0], ast.NotIn) and comp is not None
-                and any(isinstance(x, ast.Call) and call_name(x) == 'ansi_settings_at' for x in ast.walk(n))), None)
+    pre = None
+    for n in f.body:
+        if isinstance(n, ast.If) and any(isinstance(c, ast.Compare) and isinstance(c.ops[0], ast.NotIn) and norm(c.left) == 'start' for c in conjuncts(n.test)) and \
+                any(isinstance(x, ast.Call) and call_name(x) == 'ansi_settings_at' for x in ast.walk(n)):
+            pre = n
     if pre is None:
-        R.viol(f, f.node, 'a start that lies between two points is never examined: a setting active there is missed', construct=cons)
+        cand = [n for n in f.body if isinstance(n, ast.If) and any(isinstance(x, ast.Call) and call_name(x) == 'ansi_settings_at' for x in ast.walk(n))]
+        if cand:
+            c0 = next(x for x in ast.walk(cand[0]) if isinstance(x, ast.Call) and call_name(x) == 'ansi_settings_at')
+            lefts = [norm(c.left) for c in conjuncts(cand[0].test) if isinstance(c, ast.Compare) and isinstance(c.ops[0], ast.NotIn)]
+            R.viol(f, cand[0], 'the between-points pre-check tests %s and looks at position %s; it must test and look at `start`' % (lefts, [norm(a) for a in c0.args]),
+                   construct=cons)
+        else:
+            R.viol(f, f.node, 'a start that lies between two points is never examined: a setting active there is missed', construct=cons)
     else:
         c = next(x for x in ast.walk(pre) if isinstance(x, ast.Call) and call_name(x) == 'ansi_settings_at')
         sets = [x for x in ast.walk(pre) if isinstance(x, ast.Assign) and norm(x.targets[0]) == 'found_start']
-        okp = norm(pre.test.left) == 'start' and [norm(a) for a in c.args] == ['start'] and sets and all(norm(x.value) == 'start' for x in sets)
-        R.check(bool(okp), f, pre, 'if `start` is not itself a point, the settings active at `start` are examined and `start` reported',
-                'pre-check tests %s, looks at position %s, reports %s' % (norm(pre.test.left), [norm(a) for a in c.args], [norm(x.value) for x in sets]), construct=cons)
+        okp = [norm(a) for a in c.args] == ['start'] and sets and all(norm(x.value) == 'start' for x in sets)
+        extra_conds = [c_ for c_ in conjuncts(pre.test) if not (isinstance(c_, ast.Compare) and isinstance(c_.ops[0], ast.NotIn) and norm(c_.left) == 'start')
+                       and quant_kind(c_) is None]
+        msg = 'pre-check looks at position %s, reports %s' % ([norm(a) for a in c.args], [norm(x.value) for x in sets])
+        if extra_conds:
+            okp = False
+            msg = 'the pre-check is skipped unless `%s`: in that case a start lying between two points is never examined' % short(extra_conds[0])
+        R.check(bool(okp), f, pre, 'if `start` is not itself a point, the settings active at `start` are examined and `start` reported', msg, construct=cons)
     # start predicate all / end predicate not all, over the same membership test
     cons = 'find_settings predicates'
-    tests = [n for n in f.walk() if isinstance(n, ast.If) and isinstance(n.test, ast.Compare) and isinstance(n.test.comparators[0], ast.ListComp)
-             and const_val(n.test.left, None) is False]
     problems = []
-    kinds = []
-    for t in tests:
-        comp = t.test.comparators[0]
-        elt = norm(comp.elt)
-        it = norm(comp.generators[0].iter)
-        tgt = norm(comp.generators[0].target)
-        if not re.match(r'^%s in \w+$' % tgt, elt) or it != (sv if scrub is not None else it):
-            problems.append('membership element %s over %s' % (elt, it))
-        kinds.append('all' if isinstance(t.test.ops[0], ast.NotIn) else 'notall' if isinstance(t.test.ops[0], ast.In) else '?')
-    sets_start = [k for k, t in zip(kinds, tests) if any(isinstance(x, ast.Assign) and norm(x.targets[0]) == 'found_start' for x in t.body)]
-    sets_end = [k for k, t in zip(kinds, tests) if any(isinstance(x, ast.Assign) and norm(x.targets[0]) == 'found_end' for x in t.body)]
-    if not sets_start or any(k != 'all' for k in sets_start):
-        problems.append('found_start is set under %s; it needs every given setting present' % sets_start)
-    if not sets_end or any(k != 'notall' for k in sets_end):
-        problems.append('found_end is set under %s; it needs at least one given setting missing' % sets_end)
-    R.check(not problems, f, tests[0] if tests else f.node, 'found_start under "all present", found_end under "some missing", same by-value membership test',
-            '; '.join(problems), construct=cons)
+    und = []
+    seen_kinds = {'found_start': [], 'found_end': []}
+    for n in f.walk():
+        if isinstance(n, ast.Assign) and norm(n.targets[0]) in seen_kinds and not (isinstance(n.value, ast.Constant) and n.value.value is None):
+            g_ = next((p_ for p_ in _parents(n) if isinstance(p_, ast.If)), None)
+            if g_ is None:
+                und.append('unguarded %s' % short(n))
+                continue
+            ks = [quant_kind(c) for c in conjuncts(g_.test)]
+            ks = [k for k in ks if k is not None]
+            if not ks:
+                und.append('guard %s' % short(g_.test))
+            else:
+                seen_kinds[norm(n.targets[0])].append(ks[0])
+    if und:
+        R.undecided(f, f.node, 'predicate shapes not recognised: %s' % und[:2], construct=cons)
+    else:
+        if not seen_kinds['found_start'] or any(k != 'all' for k in seen_kinds['found_start']):
+            problems.append('found_start is set under %s; it needs every given setting present' % seen_kinds['found_start'])
+        if not seen_kinds['found_end'] or any(k != 'notall' for k in seen_kinds['found_end']):
+            problems.append('found_end is set under %s; it needs at least one given setting missing' % seen_kinds['found_end'])
+        R.check(not problems, f, f.node, 'found_start under "all present", found_end under "some missing", same by-value membership test',
+                '; '.join(problems), construct=cons)
 
 
 @rule('F12', 'type-dispatch: the scrubber, __getitem__, __iadd__, join and the constructors dispatch on the documented types and raise '
